@@ -136,7 +136,7 @@ func init() {
 	// threads keep running and meet the new term long before the main loop can step down.
 	regScenario("stall-deposed3", func() *Scenario {
 		ns := append(voters(3), NodeSpec{Suffrage: raft.Voter, StartUp: true})
-		return &Scenario{Nodes: ns, Devs: DevStore | DevSelect, Horizon: 900, Liveness: true, AutoRestart: true,
+		return &Scenario{Nodes: ns, Devs: DevStore | DevStall | DevSelect, Horizon: 900, Liveness: true, AutoRestart: true,
 			Goal: func(w *World) bool { return w.scriptDone() && w.converged() },
 			Steps: []Step{
 				stepApplyLeader("apply1"),
